@@ -116,7 +116,8 @@ def run(ts, kw):
             if isinstance(ps, dict):
                 ps = tsdate.demography.PopulationSizeHistory(**ps)
             pri = tsdate.build_prior_grid(ts, population_size=ps, timepoints=tpa,
-                                          prior_distribution=kw.pop("prior_distribution", "lognorm"))
+                                          prior_distribution=kw.pop("prior_distribution", "lognorm"),
+                                          allow_unary=bool(kw.get("allow_unary", False)))
         except BaseException as e:  # noqa: BLE001
             if isinstance(e, (KeyboardInterrupt, MemoryError)):
                 raise
@@ -225,6 +226,8 @@ def draw_options(rng, ts, info, method=None, flavour=None):
     the absolute-unit parameters of the statement."""
     method = method or str(rng.choice(["variational_gamma", "inside_outside", "maximization"]))
     kw = dict(method=method, mutation_rate=float(info["mu"]))
+    if any(f.startswith("unary") for f in info.get("fired", [])):
+        kw["allow_unary"] = True
     if rng.random() < 0.5:
         kw["min_branch_length"] = float(rng.choice([1e-8, 1e-6, 1e-3, 0.5]))
     if rng.random() < 0.3:
@@ -281,9 +284,13 @@ def draw_options(rng, ts, info, method=None, flavour=None):
     return kw
 
 
-def draw_ts(rng, method, hist=None):
+def draw_ts(rng, method, hist=None, unary=None):
     """A tree sequence with mutations; historical samples only for the variational method
     (`hist` forces them on/off)."""
+    if unary == "two_tree":
+        return unary_two_tree(rng)
+    if unary == "subset":
+        return unary_subset(rng)
     if method != "variational_gamma":
         hp = 0.0
     elif hist is None:
@@ -643,7 +650,7 @@ def corr_mixture(ts, batch, tag, limit=4):
     from tsdate import prior
     checks = []
     try:
-        sbs = prior.SpansBySamples(ts)
+        sbs = prior.SpansBySamples(ts, allow_unary=True)
     except BaseException as e:  # noqa: BLE001
         if isinstance(e, (KeyboardInterrupt, MemoryError)):
             raise
@@ -946,3 +953,202 @@ def ep_piece(ctx, res, stats, batch, checks, n_cases, time_scales=(1.0,)):
         except BaseException as e:  # noqa: BLE001
             if isinstance(e, (KeyboardInterrupt, MemoryError)):
                 raise
+
+
+# ============================================================================= unary inputs, SpansBySamples.second_pass
+
+def unary_two_tree(rng):
+    """Hand-built two-tree input of the shape that reaches `SpansBySamples.second_pass`: in the right-hand tree a
+    chain of unary nodes sits above the topmost coalescence and ends in a node that is the (unary) root there but a
+    coalescent node with fewer descendant samples in the left-hand tree.
+
+         [0, b)                 [b, L)                 nodes 0-3 samples; `chain` extra unary nodes between 6 and T
+            R                      T
+          /   \\                    |
+         T     \\                  (chain)
+        / \\     \\                  |
+       4   \\     \\                 6
+      / \\   \\     \\               / \\
+     0   1   2     3              5   3     with 5 = (4, 2), 4 = (0, 1)
+    """
+    import msprime
+    import tskit
+    L = float(rng.choice([10.0, 100.0, 1e3, 1e4]))
+    b = float(np.floor(rng.uniform(0.2, 0.8) * L)) or 1.0
+    chain = int(rng.choice([1, 1, 2, 3]))
+    scale = float(rng.choice([1.0, 50.0, 1e3]))
+    tables = tskit.TableCollection(sequence_length=L)
+    for _ in range(4):
+        tables.nodes.add_row(flags=tskit.NODE_IS_SAMPLE, time=0)
+    times = np.cumsum(rng.uniform(0.5, 1.5, size=3 + chain + 2)) * scale
+    ids = [tables.nodes.add_row(flags=0, time=float(t)) for t in times]
+    n4, n5, n6 = ids[0], ids[1], ids[2]
+    ch = ids[3:3 + chain]
+    T, R = ids[3 + chain], ids[4 + chain]
+    edges = [(0, L, n4, 0), (0, L, n4, 1),
+             (0, b, T, n4), (0, b, T, 2), (0, b, R, T), (0, b, R, 3),
+             (b, L, n5, n4), (b, L, n5, 2), (b, L, n6, n5), (b, L, n6, 3)]
+    below = n6
+    for u in ch:
+        edges.append((b, L, u, below))
+        below = u
+    edges.append((b, L, T, below))
+    for left, right, p, c in edges:
+        tables.edges.add_row(left, right, p, c)
+    tables.sort()
+    ts = tables.tree_sequence()
+    area = float(np.sum((ts.edges_right - ts.edges_left) * (ts.nodes_time[ts.edges_parent] - ts.nodes_time[ts.edges_child])))
+    mu = float(rng.choice([2.0, 4.0])) * ts.num_edges / area
+    ts = msprime.sim_mutations(ts, rate=mu, random_seed=int(rng.integers(1, 2**31 - 1)), discrete_genome=False)
+    info = dict(n=4, ploidy=1, trees=ts.num_trees, Ne=scale, L=L, mu=mu, historical=False, fired=["unary_two_tree"],
+                muts=ts.num_mutations, nodes=ts.num_nodes, edges=ts.num_edges)
+    return unknown_mut_times(ts), info
+
+
+def unary_subset(rng, want_second_pass=True, budget=40):
+    """`simplify(keep_unary=True)` of a subset of the samples of a simulated tree sequence (unary stretches above
+    the subset's local roots, as in inferred ancestors).  With `want_second_pass`, candidates are drawn until one
+    has a node that is assigned by the second pass of SpansBySamples (or the budget runs out)."""
+    best = None
+    for _ in range(budget):
+        ts0, info = gen.sim_ts(rng, n=int(rng.integers(6, 12)), trees=int(rng.choice([3, 5, 8, 15, 30])),
+                               muts_per_edge=float(rng.choice([2.0, 4.0])))
+        k = int(rng.integers(3, max(4, ts0.num_samples // 2 + 1)))
+        keep = np.sort(rng.choice(ts0.samples(), size=k, replace=False))
+        ts = ts0.simplify(samples=keep, keep_unary=True, filter_sites=False)
+        if ts.num_mutations < 5:
+            continue
+        info = dict(info, fired=["unary_subset"], trees=ts.num_trees, nodes=ts.num_nodes, edges=ts.num_edges,
+                    muts=ts.num_mutations)
+        best = (unknown_mut_times(ts), info)
+        if not want_second_pass:
+            return best
+        rec = probe_second_pass(ts)
+        if rec is not None and rec["assigned"]:
+            return best
+    return best
+
+
+def _flatten_spans(d):
+    """node -> [((N, k), v)] in insertion order"""
+    return {int(u): [((int(N), int(k)), float(v)) for N, kd in nd.items() for k, v in kd.items()] for u, nd in d.items()}
+
+
+def probe_second_pass(ts):
+    """Run the real SpansBySamples(ts, allow_unary=True) with `second_pass` rebound (no source hook): returns the
+    span table and node spans before the pass, the list of visits (which node borrows from which ancestor in a tree
+    of which span; found by the same topological walk), the table after the pass and the finished object; or None
+    if the class rejects the input."""
+    import tskit
+    from tsdate import prior
+    rec = dict(entered=False, assigned=[], visits=[], before={}, after={}, node_spans=None, sbs=None)
+    orig = prior.SpansBySamples.second_pass
+
+    def wrapper(self, trees_with_undated, n_tips_per_tree):
+        rec["entered"] = True
+        rec["before"] = _flatten_spans(self._spans)
+        rec["node_spans"] = np.array(self.node_spans, dtype=float, copy=True)
+        unassigned = self.nodes_remaining_to_date()
+        have = set(int(u) for u in self._spans)
+        tree_iter = self.ts.trees()
+        tree = next(tree_iter)
+        for tree_id in trees_with_undated:
+            while tree.index != tree_id:
+                tree = next(tree_iter)
+            for node in unassigned:
+                if tree.parent(node) == tskit.NULL:
+                    continue
+                n = node
+                while True:
+                    n = tree.parent(n)
+                    if n == tskit.NULL or n in have:
+                        break
+                if n == tskit.NULL:
+                    continue
+                rec["visits"].append((int(node), int(n), float(tree.span), int(n_tips_per_tree[tree_id]),
+                                      int(tree.num_samples(node))))
+                have.add(int(node))
+        out = orig(self, trees_with_undated, n_tips_per_tree)
+        rec["after"] = _flatten_spans(self._spans)
+        rec["assigned"] = sorted(int(u) for u in unassigned if u in self._spans)
+        return out
+
+    prior.SpansBySamples.second_pass = wrapper
+    try:
+        rec["sbs"] = prior.SpansBySamples(ts, allow_unary=True)
+    except BaseException as e:  # noqa: BLE001
+        if isinstance(e, (KeyboardInterrupt, MemoryError)):
+            raise
+        return None
+    finally:
+        prior.SpansBySamples.second_pass = orig
+    return rec
+
+
+def corr_second_pass(ts, batch, tag, stats):
+    """Model `secondPass` (and the mixture over the resulting entries) against the real SpansBySamples."""
+    from tsdate import prior
+    dating.quiet()
+    rec = probe_second_pass(ts)
+    checks = []
+    sp = stats.setdefault("second_pass", dict(probed=0, entered=0, reached=0, nodes_assigned=0, visits=0))
+    sp["probed"] += 1
+    if rec is None:
+        return checks, None
+    sp["entered"] += int(rec["entered"])
+    if not rec["assigned"]:
+        return checks, rec
+    sp["reached"] += 1
+    sp["nodes_assigned"] += len(rec["assigned"])
+    sp["visits"] += len(rec["visits"])
+    toks = []
+    for u, ent in rec["before"].items():
+        for (N, k), v in reversed(ent):
+            toks += [str(u), str(N), str(k), f2h(v)]
+    vt = []
+    for (node, anc, span, tot, desc) in rec["visits"]:
+        vt += [str(node), str(anc), f2h(span), str(tot), str(desc)]
+    i = batch.add("secondpass", dict(table=" ".join(toks) if toks else None, nodespans=_hx(rec["node_spans"]),
+                                     visits=" ".join(vt), nodes=_ns(rec["assigned"])), dict(tag=tag))
+
+    def chk(rep, i=i, rec=rec):
+        r = rep.get(i)
+        if r is None:
+            return [("model-rejects-second-pass", f"{tag}: driver refused the second-pass case")]
+        for u, sec in zip(rec["assigned"], r):
+            model = {(int(sec[j]), int(sec[j + 1])): sec[j + 2] for j in range(0, len(sec), 3)}
+            real = {key: f2h(v) for key, v in rec["after"].get(u, [])}
+            if model != real:
+                return [("second-pass-spans-differ",
+                         f"{tag}: spans of node {u} after SpansBySamples.second_pass differ from the model "
+                         f"(model {sorted((k, h2f(v)) for k, v in model.items())}, code {sorted((k, h2f(v)) for k, v in real.items())})")]
+        return []
+    checks.append(chk)
+    # mixture prior of the second-pass nodes (possibly several total-tip classes)
+    sbs = rec["sbs"]
+    base = prior.ConditionalCoalescentTimes(None, "lognorm")
+    base.add(ts.num_samples, False)
+    for tf in sbs.total_fixed_at_0_counts:
+        if tf > 0:
+            base.add(tf, False)
+    for u in rec["assigned"][:3]:
+        mix = sbs.get_spans(u)
+        means, vars_, ws = [], [], []
+        for N, arr in mix.items():
+            means += list(base[N][arr["descendant_tips"], base.mean_column])
+            vars_ += list(base[N][arr["descendant_tips"], base.var_column])
+            ws += list(arr["span"])
+        mean, var = base.mixture_expect_and_var(mix)
+        j = batch.add("mixkeyed", dict(means=_hx(means), vars=_hx(vars_), weights=_hx(ws)), dict(tag=tag))
+
+        def chk2(rep, j=j, mean=mean, var=var, u=u):
+            r = rep.get(j)
+            if r is None:
+                return [("model-rejects-mixture", f"{tag}: driver refused the mixture of second-pass node {u}")]
+            m = fsec(r[0])
+            if relerr([m[0]], [mean]) > 1e-12 or abs(m[1] - var) > 1e-10 * max(abs(var), mean * mean):
+                return [("second-pass-mixture-differs", f"{tag}: mixture mean/var of second-pass node {u}: model "
+                                                        f"{m[0]!r},{m[1]!r} vs {mean!r},{var!r}")]
+            return []
+        checks.append(chk2)
+    return checks, rec
